@@ -274,11 +274,11 @@ func runFwOp(o *FwOp, rng *RNG, objs *fwObjects) (out string) {
 	var altObj interface{}
 	switch o.Kind {
 	case "cert":
-		key := fmt.Sprintf("%s|%d|%v", o.View.String(), o.Target.Unix(), o.Offset)
+		key := fmt.Sprintf("%s|%d.%d|%v", o.View.String(), o.Target.Unix(), o.Target.Nanosecond(), o.Offset)
 		c := objs.certCache[key]
 		if c == nil {
 			var err error
-			if o.Target.Year() < 1 {
+			if o.Target.Year() < 1 || o.Target.Nanosecond() != 0 {
 				// an instant no encoder here writes (year 0 and before): the object is parsed with another date and the
 				// dating field set on the parsed value — Lint*Ex takes any *x509.Certificate
 				c, _, err = buildViewCert(o.View, time.Unix(fwE, 0).UTC(), false)
@@ -315,10 +315,10 @@ func runFwOp(o *FwOp, rng *RNG, objs *fwObjects) (out string) {
 		rs = zlint.LintCertificateEx(c, reg)
 		altObj = c
 	case "crl":
-		c := objs.crlCache[o.Target.Unix()]
+		c := objs.crlCache[fwDateKey(o.Target)]
 		if c == nil {
 			var err error
-			if o.Target.Year() < 1 {
+			if o.Target.Year() < 1 || o.Target.Nanosecond() != 0 {
 				c, _, err = buildCRL(time.Unix(fwE, 0).UTC(), time.Unix(fwE, 0).UTC().Add(24*time.Hour))
 				if err == nil {
 					cp := *c
@@ -331,7 +331,7 @@ func runFwOp(o *FwOp, rng *RNG, objs *fwObjects) (out string) {
 			if err != nil {
 				return "builderr:" + err.Error()
 			}
-			objs.crlCache[o.Target.Unix()] = c
+			objs.crlCache[fwDateKey(o.Target)] = c
 		}
 		rs = zlint.LintRevocationListEx(c, reg)
 		altObj = c
@@ -348,11 +348,11 @@ func runFwOp(o *FwOp, rng *RNG, objs *fwObjects) (out string) {
 			altObj = c
 			break
 		}
-		c := objs.ocspCache[o.Target.Unix()]
+		c := objs.ocspCache[fwDateKey(o.Target)]
 		if c == nil {
 			var err error
 			// the OCSP window is read from NextUpdate
-			if o.Target.Year() < 1 {
+			if o.Target.Year() < 1 || o.Target.Nanosecond() != 0 {
 				b := time.Unix(fwE, 0).UTC()
 				c, _, err = buildOCSP(b.Add(-48*time.Hour), b, b.Add(-47*time.Hour))
 				if err == nil {
@@ -366,7 +366,7 @@ func runFwOp(o *FwOp, rng *RNG, objs *fwObjects) (out string) {
 			if err != nil {
 				return "builderr:" + err.Error()
 			}
-			objs.ocspCache[o.Target.Unix()] = c
+			objs.ocspCache[fwDateKey(o.Target)] = c
 		}
 		rs = zlint.LintOcspResponseEx(c, reg)
 		altObj = c
@@ -556,6 +556,15 @@ type winCase struct {
 	eff, ineff string
 	target     int64
 	label      string
+	nanos      int64 // sub-second part of the object's date (set on the parsed value: DER dates have whole seconds)
+}
+
+// cache key of an object date: the second, or (sub-second dates, which only occur around fwE/fwI) a negative number no second maps to
+func fwDateKey(t time.Time) int64 {
+	if t.Nanosecond() == 0 {
+		return t.Unix()
+	}
+	return -(t.Unix()<<31 | int64(t.Nanosecond()))
 }
 
 func windowCases() []winCase {
@@ -572,13 +581,13 @@ func windowCases() []winCase {
 	for _, e := range effs {
 		for _, i := range ineffs {
 			for _, t := range targets {
-				out = append(out, winCase{e, i, t.t, e[:1] + i[:1] + t.l})
+				out = append(out, winCase{e, i, t.t, e[:1] + i[:1] + t.l, 0})
 			}
 		}
 	}
 	// inverted window (ineff before eff) and zero-date-like metadata (year 0, as util.ZeroDate)
-	out = append(out, winCase{fmt.Sprintf("%d.0", fwI), fmt.Sprintf("%d.0", fwE), fwE + 5, "inverted"})
-	out = append(out, winCase{"-62167219200.0", "Z", fwE, "year0"})
+	out = append(out, winCase{fmt.Sprintf("%d.0", fwI), fmt.Sprintf("%d.0", fwE), fwE + 5, "inverted", 0})
+	out = append(out, winCase{"-62167219200.0", "Z", fwE, "year0", 0})
 	// util.ZeroDate (0000-01-01, one year before Go's zero time.Time) is a real instant that ~50 registered lints carry as their
 	// effective date: objects dated one second before it, at it and after it — and the same instant as an *ineffective* date
 	const zd = int64(-62167219200)
@@ -586,11 +595,24 @@ func windowCases() []winCase {
 		t int64
 		l string
 	}{{zd - 1, "ZD-1"}, {zd, "ZD"}, {zd + 1, "ZD+1"}, {zd - 86400*400, "ZD-400d"}} {
-		out = append(out, winCase{"-62167219200.0", "Z", t.t, "effZD" + t.l})
-		out = append(out, winCase{"-62167219200.0", fmt.Sprintf("%d.0", fwI), t.t, "effZDi" + t.l})
+		out = append(out, winCase{"-62167219200.0", "Z", t.t, "effZD" + t.l, 0})
+		out = append(out, winCase{"-62167219200.0", fmt.Sprintf("%d.0", fwI), t.t, "effZDi" + t.l, 0})
 	}
-	out = append(out, winCase{"Z", "-62167219200.0", zd - 1, "ineffZD-1"}, winCase{"Z", "-62167219200.0", zd, "ineffZD"}, winCase{"Z", "-62167219200.0", fwE, "ineffZD-later"},
-		winCase{"-62167219200.0", "-62167219200.0", zd, "emptyZD"}, winCase{"-62167219200.0", "-62167219200.0", fwE, "emptyZD-later"})
+	// objects dated *between* two encodable seconds (a caller may hand Lint*Ex a value it built or adjusted itself): the window is
+	// compared on the full instant, half-open, with no rounding — 400 ms and 1 ns before a bound, 600 ms after the second before it
+	for _, e := range effs[1:] {
+		for _, i := range ineffs[1:] {
+			for _, t := range []struct {
+				t, ns int64
+				l     string
+			}{{fwE - 1, 600000000, "E-400ms"}, {fwE - 1, 999999999, "E-1ns"}, {fwE - 1, 400000000, "E-600ms"}, {fwE, 1, "E+1ns"}, {fwE, 499, "E+499ns"}, {fwE, 501, "E+501ns"},
+				{fwI - 1, 600000000, "I-400ms"}, {fwI - 1, 999999999, "I-1ns"}, {fwI, 1, "I+1ns"}, {fwI, 499, "I+499ns"}, {fwI, 500, "I+500ns"}, {fwI, 600000000, "I+600ms"}} {
+				out = append(out, winCase{e, i, t.t, e[len(e)-3:] + i[len(i)-3:] + t.l, t.ns})
+			}
+		}
+	}
+	out = append(out, winCase{"Z", "-62167219200.0", zd - 1, "ineffZD-1", 0}, winCase{"Z", "-62167219200.0", zd, "ineffZD", 0}, winCase{"Z", "-62167219200.0", fwE, "ineffZD-later", 0},
+		winCase{"-62167219200.0", "-62167219200.0", zd, "emptyZD", 0}, winCase{"-62167219200.0", "-62167219200.0", fwE, "emptyZD-later", 0})
 	return out
 }
 
@@ -626,7 +648,7 @@ func subFramework(outDir string, seed uint64, tier string) {
 		rep.count("cfg:" + cfg)
 		rep.count("app:" + app)
 		rep.count("body:" + body)
-		emit(FwOp{Kind: kind, View: view, Target: time.Unix(w.target, 0).UTC(), Offset: off, Lints: []LintSpec{l}})
+		emit(FwOp{Kind: kind, View: view, Target: time.Unix(w.target, w.nanos).UTC(), Offset: off, Lints: []LintSpec{l}})
 	}
 	kinds := []string{"cert", "crl", "ocsp"}
 	if tier == "thorough" {
